@@ -14,18 +14,34 @@
   the OXM header word class<<16 | field<<9 | hasmask<<8 | length of the referenced match field.
 
   One theorem `K_layout` per kind:   K.marshalM v = .ok (bs, v')  →  LayoutHolds "K" v bs
-  for EVERY value v (no hypothesis besides the encoder succeeding; pads, lengths, children are arbitrary).
+  for EVERY value v (no hypothesis besides the encoder succeeding; pads, lengths, children are arbitrary):
+    standard actions   actionOutput / actionSetqueue / actionGroup / actionPush / actionPopMpls _layout
+    Nicira actions     nxResubmit / nxResubmitTable / nxRegMove / nxRegLoad / nxOutputReg / nxConjunction / nxController /
+                       nxDecTTLCntIDs / nxLearn / nxConnTrack / nxCTNAT _layout
+    instructions       instrGotoTable / instrWriteMetadata _layout
+    messages           flowMod / groupMod / bucket / packetOut / portMod / switchConfig / multipartRequest /
+                       flowStatsRequest / aggregateStatsRequest _layout  (bodies relative to the body: `multipartRequest_body`)
+    vendor payloads    controllerID / tlvTableMod / tlvTableMap / bundleControl / bundleAdd _layout (`vendorHeader_payload`:
+                       the payload starts at 16)
+    interfaces         `action_layout`, `instruction_layout` (dispatch on the dynamic type); `layouts_kinds` lists the table's kinds.
 
   Where a row is FALSE in the model a counterexample is proved instead (`…_layout_counterexample`):
-    * PortStatsRequest.PortNo / QueueStatsRequest.PortNo  — written in 16 bits (known finding),
+    * PortStatsRequest.PortNo / QueueStatsRequest.PortNo  — written in 16 bits (known finding; `…_actual` say what is true),
     * InstrMeter.MeterId                                  — stub type, never written (known finding),
     * ActionMplsTtl.MplsTtl / ActionNwTtl.NwTtl           — never written: the set-TTL actions encode to 4 header bytes,
     * NXActionCTNAT: a range setter called with nil sets the presence bit but emits nothing
       (`nxCTNAT_presence_counterexample`).
-  Further: OXM payload placement (`matchField_layout`), list order (`match_layout`, `instrActions_in_order`,
-  `bucket_in_order`, `groupMod_buckets_in_order`, `flowMod_instructions_in_order`, `nxConnTrack_actions_in_order`),
-  NAT optional parts (`nxCTNAT_ranges`, `nxCTNAT_presence`), container offsets of multipart bodies and vendor payloads
-  (`multipartRequest_body`, `vendorHeader_payload`).
+  Further:
+    * OXM payload placement: `matchField_layout` (header word, experimenter id, value, then mask iff HasMask),
+    * list order (`InOrderAt bs start bss`: the k-th child encoding sits, complete, at start + Σ lengths before it):
+      `match_layout`, `instrActions_in_order`, `bucket_in_order` / `bucket_shape`, `groupMod_buckets_in_order`,
+      `flowMod_instructions_in_order`, `nxConnTrack_actions_in_order`, `tlvTableMod_maps_in_order`, `nxLearn_specs_in_order`,
+    * NAT optional parts: `nxCTNAT_ranges` (the ranges that are set, in presence-bit order, each in its width) and
+      `nxCTNAT_presence` (… exactly when the presence bits say so, for actions whose bits agree with their fields —
+      an invariant of the constructor and of the setters: `natPresent_new`, `setRange_addr_present`, `setRange_port_present`
+      in OFV/Lemmas/LayNat.lean).
+  Tools: OFV/Lemmas/LayFill.lean (`fill_piece_at`: where the k-th piece of a `fill` encoder ends up),
+  OFV/Lemmas/LayDefs.lean (vocabulary + tactics), OFV/Lemmas/LayNat.lean (conntrack / NAT helpers).
 -/
 import OFV.Model.All
 import OFV.Spec.Layout
@@ -43,6 +59,14 @@ import OFV.Lemmas.SizeList
 import OFV.Lemmas.SizeInstr
 namespace OFV.Props.C03b
 open OFV OFV.Go OFV.Model OFV.Spec InstrAux
+
+/-- a row of kind `num` whose supplied value is in range for the row's width: the bytes read back as that very value -/
+theorem layout_inRange (v : V) (bs : Bytes) (name : String) (off w x : Nat)
+    (h : FieldAt v bs ⟨name, off, w, .num⟩) (hx : fieldOf v name = some (.num x)) (hr : x < 2 ^ (8 * w)) :
+    beAt bs off w = x := by
+  unfold FieldAt at h
+  simp only [hx] at h
+  rw [h]; exact Nat.mod_eq_of_lt hr
 
 /-! ### standard actions -/
 
@@ -136,6 +160,17 @@ theorem actionMplsTtl_layout_counterexample (ty ln ttl : Nat) (pad : Bytes) (htt
   intro h
   have h4 : beAt (be16 (n16 ty) ++ be16 (n16 ln)) 4 1 = ttl % 2 ^ (8 * 1) :=
     h ⟨"MplsTtl", 4, 1, .num⟩ (by simp [layoutOf, Spec.layouts, List.lookup])
+  simp [beAt, be16] at h4
+  omega
+
+/-- GENUINE DEFECT (layout row ActionNwTtl.NwTtl at 4 is FALSE): as ActionMplsTtl — 4 header bytes, the TTL is never written -/
+theorem actionNwTtl_layout_counterexample (ty ln ttl : Nat) (pad : Bytes) (httl : ttl % 256 ≠ 0) :
+    ∃ bs v', ActionNwTtl.marshalM (.obj "ActionNwTtl" [ActionHeader.mk ty ln, .num ttl, .bytes pad]) = .ok (bs, v') ∧
+      bs.length = 4 ∧ ¬ LayoutHolds "ActionNwTtl" (.obj "ActionNwTtl" [ActionHeader.mk ty ln, .num ttl, .bytes pad]) bs := by
+  refine ⟨_, _, rfl, rfl, ?_⟩
+  intro h
+  have h4 : beAt (be16 (n16 ty) ++ be16 (n16 ln)) 4 1 = ttl % 2 ^ (8 * 1) :=
+    h ⟨"NwTtl", 4, 1, .num⟩ (by simp [layoutOf, Spec.layouts, List.lookup])
   simp [beAt, be16] at h4
   omega
 
@@ -398,6 +433,48 @@ theorem nxCTNAT_ranges (h pad : V) (fl rp : Nat) (v4a v4b v6a v6b : Bytes) (pmin
   congr 2
   simp only [List.length_append, be16_length, zeros_length, hl] at hL ⊢
   omega
+
+/-- NXActionCTNAT — optional parts appear exactly when their presence flags say so: for an action whose presence bits
+    agree with the ranges that are set (`NatPresent`; true of NewNXActionCTNAT() and preserved by every range setter
+    called with a non-nil argument: `natPresent_new`, `setRange_addr_present`, `setRange_port_present`), the bytes after
+    range_present are, for i = 0..5 in this order, the i-th range (IPv4 min, IPv4 max, IPv6 min, IPv6 max, proto min,
+    proto max; 4 / 4 / 16 / 16 / 2 / 2 bytes) if and only if bit i of range_present is set — then only zero padding -/
+theorem nxCTNAT_presence (h pad : V) (fl rp : Nat) (v4a v4b v6a v6b : Bytes) (pmin pmax : V) (bs : Bytes) (v' : V)
+    (hm : NXActionCTNAT.marshalM (.obj "NXActionCTNAT" [h, pad, .num fl, .num rp, .bytes v4a, .bytes v4b, .bytes v6a,
+      .bytes v6b, pmin, pmax]) = .ok (bs, v'))
+    (hp : NatPresent rp v4a v4b v6a v6b pmin pmax)
+    (hfit : 16 + (natOptBits rp v4a v4b v6a v6b pmin pmax).length ≤ bs.length) :
+    ∃ hb : Bytes, hb.length = 10 ∧
+      bs = hb ++ zeros 2 ++ be16 (n16 fl) ++ be16 (n16 rp) ++ natOptBits rp v4a v4b v6a v6b pmin pmax ++
+        zeros (bs.length - (16 + (natOptBits rp v4a v4b v6a v6b pmin pmax).length)) := by
+  rw [← natOpt_presence rp v4a v4b v6a v6b pmin pmax hp] at hfit ⊢
+  exact nxCTNAT_ranges h pad fl rp v4a v4b v6a v6b pmin pmax bs v' hm hfit
+
+/-- the API constants of the six range setters are the presence bits 2^0 … 2^5, in wire order -/
+theorem nat_range_bits :
+    Gen.openflow13.NX_NAT_RANGE_IPV4_MIN = 2 ^ 0 ∧ Gen.openflow13.NX_NAT_RANGE_IPV4_MAX = 2 ^ 1 ∧
+    Gen.openflow13.NX_NAT_RANGE_IPV6_MIN = 2 ^ 2 ∧ Gen.openflow13.NX_NAT_RANGE_IPV6_MAX = 2 ^ 3 ∧
+    Gen.openflow13.NX_NAT_RANGE_PROTO_MIN = 2 ^ 4 ∧ Gen.openflow13.NX_NAT_RANGE_PROTO_MAX = 2 ^ 5 := by decide
+
+/-- a value built by the API — NewNXActionCTNAT(); SetRangeIPv4Min(10.0.0.1); SetRangeProtoMin(1000) — and its
+    encoding: header, pad, flags 0, range_present 0x0011, then 10.0.0.1 and port 1000 (0x03e8), zero padding to 24 -/
+example : ((do
+      let v ← NXActionCTNAT.setRange 0 Gen.openflow13.NX_NAT_RANGE_IPV4_MIN 4 (.bytes [10, 0, 0, 1]) NXActionCTNAT.new
+      NXActionCTNAT.setRange 4 Gen.openflow13.NX_NAT_RANGE_PROTO_MIN 2 (.num 1000) v) >>= NXActionCTNAT.marshalM).map (·.1) =
+    .ok [0xff, 0xff, 0, 24, 0, 0, 0x23, 0x20, 0, 36, 0, 0, 0, 0, 0, 0x11, 10, 0, 0, 1, 0x03, 0xe8, 0, 0] := by rfl
+
+/-- BOUNDARY FINDING (API-reachable, needs a nil argument): `SetRangeIPv4Min(nil)` sets presence bit 0 and adds 4 to
+    the length, but the encoder tests the FIELD for nil, not the bit: nothing is emitted for it.  After
+    NewNXActionCTNAT(); SetRangeIPv4Min(nil); SetRangeIPv4Max(1.2.3.4) the encoding announces both IPv4 ranges
+    (range_present = 3) but carries the MAX address 1.2.3.4 in the slot of the MIN address (offset 16) and zeros in
+    the slot of the max address (offset 20): the optional part is NOT present although its flag says so. -/
+theorem nxCTNAT_presence_counterexample :
+    ∃ v bs v', (do
+        let v ← NXActionCTNAT.setRange 0 Gen.openflow13.NX_NAT_RANGE_IPV4_MIN 4 (.bytes []) NXActionCTNAT.new
+        NXActionCTNAT.setRange 1 Gen.openflow13.NX_NAT_RANGE_IPV4_MAX 4 (.bytes [1, 2, 3, 4]) v) = .ok v ∧
+      NXActionCTNAT.marshalM v = .ok (bs, v') ∧ beAt bs 14 2 = 3 ∧
+      (bs.drop 16).take 4 = [1, 2, 3, 4] ∧ (bs.drop 20).take 4 = [0, 0, 0, 0] := by
+  refine ⟨_, _, _, rfl, rfl, ?_, ?_, ?_⟩ <;> decide
 
 /-! ### instructions -/
 
@@ -1135,25 +1212,6 @@ theorem flowMod_instructions_in_order (v : V) (bs : Bytes) (v2 : V) (h2 : FlowMo
       · exact absurd h3 (by simp)
   · exact absurd hl (by simp)
 
-/-- a row of kind `num` whose supplied value is in range for the row's width: the bytes read back as that very value -/
-theorem layout_inRange (v : V) (bs : Bytes) (name : String) (off w x : Nat)
-    (h : FieldAt v bs ⟨name, off, w, .num⟩) (hx : fieldOf v name = some (.num x)) (hr : x < 2 ^ (8 * w)) :
-    beAt bs off w = x := by
-  unfold FieldAt at h
-  simp only [hx] at h
-  rw [h]; exact Nat.mod_eq_of_lt hr
-
-/-- GENUINE DEFECT (layout row ActionNwTtl.NwTtl at 4 is FALSE): as ActionMplsTtl — 4 header bytes, the TTL is never written -/
-theorem actionNwTtl_layout_counterexample (ty ln ttl : Nat) (pad : Bytes) (httl : ttl % 256 ≠ 0) :
-    ∃ bs v', ActionNwTtl.marshalM (.obj "ActionNwTtl" [ActionHeader.mk ty ln, .num ttl, .bytes pad]) = .ok (bs, v') ∧
-      bs.length = 4 ∧ ¬ LayoutHolds "ActionNwTtl" (.obj "ActionNwTtl" [ActionHeader.mk ty ln, .num ttl, .bytes pad]) bs := by
-  refine ⟨_, _, rfl, rfl, ?_⟩
-  intro h
-  have h4 : beAt (be16 (n16 ty) ++ be16 (n16 ln)) 4 1 = ttl % 2 ^ (8 * 1) :=
-    h ⟨"NwTtl", 4, 1, .num⟩ (by simp [layoutOf, Spec.layouts, List.lookup])
-  simp [beAt, be16] at h4
-  omega
-
 /-- FlowMod: every row of the table (cookie 8, cookie_mask 16, table_id 24, command 25, idle 26, hard 28, priority 30,
     buffer_id 32, out_port 36, out_group 40, flags 44) — the generic form of `C03.C03_flowmod_fixed` -/
 theorem flowMod_layout (h : V) (ck cm tid cmd it ht pr bid op og fl : Nat) (pad m : V) (is : List V) (bs : Bytes) (v' : V)
@@ -1294,5 +1352,189 @@ theorem vendorHeader_payload (cl : MsgLenF) (cm : MsgMarF) (v : V) (bs : Bytes) 
         have hw' : (bs.drop 16).take db.length = db := by simpa [pCopy, Piece.raw] using hw
         exact ⟨hw', fun off w hle => beAt_of_window_eq bs db 16 db.length hw' off w hle⟩
   · exact absurd h2 (by simp)
+
+/-- TLVTableMod: after command and 6 pad bytes, the encodings of the maps, complete and IN LIST ORDER, from offset 8 -/
+theorem tlvTableMod_maps_in_order (v : V) (bs : Bytes) (v' : V) (hm : TLVTableMod.marshalM v = .ok (bs, v')) :
+    ∃ c p ms ls ms1 bss ms2, v = .obj "TLVTableMod" [c, p, .list ms] ∧ mapM2 TLVTableMap.lenM ms = .ok (ls, ms1) ∧
+      mapM2 TLVTableMap.marshalM ms1 = .ok (bss, ms2) ∧ (8 + bss.flatten.length ≤ bs.length → InOrderAt bs 8 bss) := by
+  unfold TLVTableMod.marshalM at hm
+  obtain ⟨⟨l, v1⟩, hl, h1⟩ := bind_ok_inv _ _ _ hm
+  unfold TLVTableMod.lenM at hl
+  split at hl
+  · rename_i c p ms
+    obtain ⟨⟨ls, ms1⟩, hml, hl'⟩ := bind_ok_inv _ _ _ hl
+    cases hl'
+    simp only at h1
+    split at h1
+    · rename_i c0 p0 ms0 heq
+      cases heq
+      obtain ⟨⟨mbs, ms2⟩, hmm, h2⟩ := bind_ok_inv _ _ _ h1
+      obtain ⟨out, hf, h3⟩ := bind_ok_inv _ _ _ h2
+      cases h3
+      have hL := fill_length _ _ _ hf
+      refine ⟨_, p, ms, ls, ms1, mbs, ms2, rfl, hml, hmm, ?_⟩
+      intro hfit
+      have hfix : piecesLen [pU16 c0, pSkip 6] = 8 := by lay_off
+      have := fill_fixed_list _ [pU16 c0, pSkip 6] mbs bs hf
+        (by intro q hq; simp only [pU16, pSkip, List.mem_cons, List.mem_nil_iff, or_false] at hq; rcases hq with rfl | rfl <;> trivial)
+        (by rw [hfix]; omega)
+      rw [hfix] at this
+      exact this.2
+    · exact absurd h1 (by simp)
+  · exact absurd hl (by simp)
+
+/-- NXActionLearn: after the 32 fixed bytes, the encodings of the learn specs, complete and IN LIST ORDER -/
+theorem nxLearn_specs_in_order (v : V) (bs : Bytes) (v' : V) (hm : NXActionLearn.marshalM v = .ok (bs, v')) :
+    ∃ h idle hard prio cookie fl tid pad fi fh specs pad2 bss specs',
+      v = .obj "NXActionLearn" [h, idle, hard, prio, cookie, fl, tid, pad, fi, fh, .list specs, pad2] ∧
+      mapM2 NXLearnSpec.marshalM specs = .ok (bss, specs') ∧ (32 + bss.flatten.length ≤ bs.length → InOrderAt bs 32 bss) := by
+  unfold NXActionLearn.marshalM at hm
+  obtain ⟨l, hlen, h1⟩ := bind_ok_inv _ _ _ hm
+  split at h1
+  · rename_i h idle hard prio cookie fl tid pad fi fh specs pad2
+    obtain ⟨h', _, h2⟩ := bind_ok_inv _ _ _ h1
+    obtain ⟨hb, hhb, h3⟩ := bind_ok_inv _ _ _ h2
+    obtain ⟨⟨sbs, specs'⟩, hmm, h4⟩ := bind_ok_inv _ _ _ h3
+    obtain ⟨out, hf, h5⟩ := bind_ok_inv _ _ _ h4
+    cases h5
+    have hl := NXActionHeader.bytes_length _ _ hhb
+    have hL := fill_length _ _ _ hf
+    refine ⟨_, _, _, _, _, _, _, _, _, _, specs, _, sbs, specs', rfl, hmm, ?_⟩
+    intro hfit
+    have hfix : piecesLen [pCopy hb, pU16 idle, pU16 hard, pU16 prio, pU64 cookie, pU16 fl, pU8 tid, pSkip 1, pU16 fi, pU16 fh] = 32 := by
+      lay_off
+    have := fill_fixed_list _ _ sbs bs hf
+      (by intro q hq
+          simp only [pCopy, pU16, pU64, pU8, pSkip, List.mem_cons, List.mem_nil_iff, or_false] at hq
+          rcases hq with rfl | rfl | rfl | rfl | rfl | rfl | rfl | rfl | rfl | rfl <;> trivial)
+      (by rw [hfix]; omega)
+    rw [hfix] at this
+    exact this.2
+  · exact absurd h1 (by simp)
+
+/-- coverage: the kinds of the specification table, in table order — each has its `…_layout` theorem above (or, where
+    a row is false in the model, its `…_layout_counterexample`); a row added to `Spec.layouts` breaks this statement -/
+theorem layouts_kinds : Spec.layouts.map (·.1) =
+    ["FlowMod", "GroupMod", "Bucket", "PacketOut", "PortMod", "SwitchConfig", "MultipartRequest", "FlowStatsRequest",
+     "AggregateStatsRequest", "PortStatsRequest", "QueueStatsRequest", "ActionOutput", "ActionSetqueue", "ActionGroup",
+     "ActionPush", "ActionPopMpls", "ActionMplsTtl", "ActionNwTtl", "NXActionResubmit", "NXActionResubmitTable",
+     "NXActionRegMove", "NXActionRegLoad", "NXActionOutputReg", "NXActionConjunction", "NXActionController",
+     "NXActionConnTrack", "NXActionCTNAT", "NXActionLearn", "NXActionDecTTLCntIDs", "InstrGotoTable", "InstrWriteMetadata",
+     "InstrMeter", "ControllerID", "TLVTableMod", "TLVTableMap", "BundleControl", "BundleAdd"] := rfl
+
+/-! ### through the interfaces, with the knot tied -/
+
+/-- NXActionConnTrack.MarshalBinary() (nested actions encoded through the Action interface) -/
+theorem nxConnTrack_layout' (v : V) (bs : Bytes) (v' : V) (hm : NXActionConnTrack.marshalM v = .ok (bs, v')) :
+    LayoutHolds "NXActionConnTrack" v bs := nxConnTrack_layout _ _ v bs v' hm
+/-- PacketOut.MarshalBinary() -/
+theorem packetOut_layout' (v : V) (bs : Bytes) (v' : V) (hm : PacketOut.marshalM v = .ok (bs, v')) :
+    LayoutHolds "PacketOut" v bs := packetOut_layout _ _ v bs v' hm
+/-- BundleAdd.MarshalBinary() -/
+theorem bundleAdd_layout' (v : V) (bs : Bytes) (v' : V) (hm : BundleAdd.marshalM v = .ok (bs, v')) :
+    LayoutHolds "BundleAdd" v bs := bundleAdd_layout _ _ v bs v' hm
+/-- MultipartRequest.MarshalBinary() -/
+theorem multipartRequest_layout' (v : V) (bs : Bytes) (v' : V) (hm : MultipartRequest.marshalM v = .ok (bs, v')) :
+    LayoutHolds "MultipartRequest" v bs := multipartRequest_layout _ _ v bs v' hm
+
+/-- THE ACTION INTERFACE: whatever action a value holds (any kind, any field values, conntrack actions nested to any
+    depth below the encoder's bound) — except the two TTL setters, whose row is false
+    (`actionMplsTtl_layout_counterexample`, `actionNwTtl_layout_counterexample`) — every row the specification table
+    has for its kind holds for the bytes `Action.MarshalBinary()` returns -/
+theorem action_layout (v : V) (bs : Bytes) (v' : V) (hm : Action.marshalM v = .ok (bs, v'))
+    (hk : v.kind ≠ "ActionMplsTtl" ∧ v.kind ≠ "ActionNwTtl") : LayoutHolds v.kind v bs := by
+  unfold Action.marshalM Action.encDepth at hm
+  unfold Action.marshalD at hm
+  split at hm
+  · rename_i hct
+    rw [hct]
+    exact nxConnTrack_layout _ _ v bs v' hm
+  · unfold Action.marshalLeaf at hm
+    split at hm <;> rename_i hkind
+    all_goals first
+      | exact absurd hm (by simp)
+      | exact absurd hkind hk.1
+      | exact absurd hkind hk.2
+      | (rw [hkind]
+         first
+           | exact actionOutput_layout v bs v' hm
+           | exact actionSetqueue_layout v bs v' hm
+           | exact actionGroup_layout v bs v' hm
+           | exact actionPush_layout v bs v' hm
+           | exact actionPopMpls_layout v bs v' hm
+           | exact nxConjunction_layout v bs v' hm
+           | exact nxRegLoad_layout v bs v' hm
+           | exact nxRegMove_layout v bs v' hm
+           | exact nxResubmit_layout v bs v' hm
+           | exact nxResubmitTable_layout v bs v' hm
+           | exact nxCTNAT_layout v bs v' hm
+           | exact nxOutputReg_layout v bs v' hm
+           | exact nxDecTTLCntIDs_layout v bs v' hm
+           | exact nxLearn_layout v bs v' hm
+           | exact nxController_layout v bs v' hm
+           | (intro fl hfl; exact absurd hfl (by simp [layoutOf, Spec.layouts, List.lookup])))
+
+/-- THE INSTRUCTION INTERFACE: every row of the instruction's kind holds — except for the stub InstrMeter
+    (`instrMeter_layout_counterexample`) -/
+theorem instruction_layout (v : V) (bs : Bytes) (v' : V) (hm : Instruction.marshalM v = .ok (bs, v'))
+    (hk : v.kind ≠ "InstrMeter") : LayoutHolds v.kind v bs := by
+  unfold Instruction.marshalM at hm
+  split at hm <;> rename_i hkind
+  · rw [hkind]; exact instrGotoTable_layout v bs v' hm
+  · rw [hkind]; exact instrWriteMetadata_layout v bs v' hm
+  · rw [hkind]; intro fl hfl; exact absurd hfl (by simp [layoutOf, Spec.layouts, List.lookup])
+  · exact absurd hkind hk
+  · exact absurd hm (by simp)
+
+/-! ### the hypotheses are satisfiable: every encoder succeeds on a value built by its constructor (or a literal value
+    with byte-distinct fields), so each `K_layout` theorem speaks about real encodings -/
+
+example : ∃ bs v', ActionOutput.marshalM (ActionOutput.new 7) = .ok (bs, v') := ⟨_, _, rfl⟩
+example : ∃ bs v', ActionSetqueue.marshalM (ActionSetqueue.new 7) = .ok (bs, v') := ⟨_, _, rfl⟩
+example : ∃ bs v', ActionGroup.marshalM (ActionGroup.new 7) = .ok (bs, v') := ⟨_, _, rfl⟩
+example : ∃ bs v', ActionPush.marshalM (ActionPush.new Gen.openflow13.ActionType_PushVlan 0x8100) = .ok (bs, v') := ⟨_, _, rfl⟩
+example : ∃ bs v', ActionPopMpls.marshalM (ActionPopMpls.new 0x0800) = .ok (bs, v') := ⟨_, _, rfl⟩
+example : ∃ v bs v', NXActionResubmit.new 5 = .ok v ∧ NXActionResubmit.marshalM v = .ok (bs, v') := ⟨_, _, _, rfl, rfl⟩
+example : ∃ bs v', NXActionResubmitTable.marshalM (NXActionResubmitTable.new Gen.openflow13.NXAST_RESUBMIT_TABLE 5 9 0) = .ok (bs, v') :=
+  ⟨_, _, rfl⟩
+example : ∃ bs v', NXActionRegMove.marshalM (NXActionRegMove.new 32 0 0 (MatchField.mk 1 0 false 4 (.obj "Uint32Message" [.num 7]) .nil) (MatchField.mk 1 0 false 4 (.obj "Uint32Message" [.num 7]) .nil)) = .ok (bs, v') := ⟨_, _, rfl⟩
+example : ∃ bs v', NXActionRegLoad.marshalM (NXActionRegLoad.new 31 (MatchField.mk 1 0 false 4 (.obj "Uint32Message" [.num 7]) .nil) 0x1122334455667788) = .ok (bs, v') := ⟨_, _, rfl⟩
+example : ∃ bs v', NXActionOutputReg.marshalM (NXActionOutputReg.new (MatchField.mk 1 0 false 4 (.obj "Uint32Message" [.num 7]) .nil) 31 0xffff) = .ok (bs, v') := ⟨_, _, rfl⟩
+example : ∃ bs v', NXActionConjunction.marshalM (NXActionConjunction.new 1 2 0x11223344) = .ok (bs, v') := ⟨_, _, rfl⟩
+example : ∃ bs v', NXActionController.marshalM (NXActionController.new 7) = .ok (bs, v') := ⟨_, _, rfl⟩
+example : ∃ bs v', NXActionDecTTLCntIDs.marshalM (NXActionDecTTLCntIDs.new 2 [.num 1, .num 2]) = .ok (bs, v') := ⟨_, _, rfl⟩
+example : ∃ bs v', NXActionLearn.marshalM NXActionLearn.new = .ok (bs, v') := ⟨_, _, rfl⟩
+example : ∃ bs v', NXActionConnTrack.marshalM NXActionConnTrack.new = .ok (bs, v') := ⟨_, _, rfl⟩
+example : ∃ bs v', NXActionCTNAT.marshalM NXActionCTNAT.new = .ok (bs, v') := ⟨_, _, rfl⟩
+example : ∃ bs v', InstrGotoTable.marshalM (InstrGotoTable.new 3) = .ok (bs, v') := ⟨_, _, rfl⟩
+example : ∃ bs v', InstrWriteMetadata.marshalM (InstrWriteMetadata.new 0x1122334455667788 0xff) = .ok (bs, v') := ⟨_, _, rfl⟩
+example : ∃ bs v', Bucket.marshalM (.obj "Bucket" [.num 0, .num 1, .num 2, .num 3, .bytes [], .list [ActionOutput.new 1]]) = .ok (bs, v') :=
+  ⟨_, _, rfl⟩
+example : ∃ bs v', GroupMod.marshalM (GroupMod.new 7) = .ok (bs, v') := ⟨_, _, rfl⟩
+example : ∃ bs v', SwitchConfig.marshalM SwitchConfig.new = .ok (bs, v') := ⟨_, _, rfl⟩
+example : ∃ bs v', PortMod.marshalM (PortMod.new 3) = .ok (bs, v') := ⟨_, _, rfl⟩
+example : ∃ bs v', FlowStatsRequest.marshalM FlowStatsRequest.new = .ok (bs, v') := ⟨_, _, rfl⟩
+example : ∃ bs v', AggregateStatsRequest.marshalM AggregateStatsRequest.new = .ok (bs, v') := ⟨_, _, rfl⟩
+example : ∃ bs v', MultipartRequest.marshalM (.obj "MultipartRequest" [Header.zero, .num 1, .num 0, .bytes [], FlowStatsRequest.new]) = .ok (bs, v') :=
+  ⟨_, _, rfl⟩
+example : ∃ bs v', ControllerID.marshalM (.obj "ControllerID" [.bytes (zeros 6), .num 7]) = .ok (bs, v') := ⟨_, _, rfl⟩
+example : ∃ bs v', TLVTableMap.marshalM (.obj "TLVTableMap" [.num 0xffff, .num 1, .num 4, .num 2, .bytes (zeros 2)]) = .ok (bs, v') := ⟨_, _, rfl⟩
+example : ∃ bs v', TLVTableMod.marshalM (.obj "TLVTableMod" [.num 1, .bytes (zeros 6),
+    .list [.obj "TLVTableMap" [.num 0xffff, .num 1, .num 4, .num 2, .bytes (zeros 2)]]]) = .ok (bs, v') := ⟨_, _, rfl⟩
+example : ∃ bs v', BundleControl.marshalM (.obj "BundleControl" [.num 1, .num 2, .num 3]) = .ok (bs, v') := ⟨_, _, rfl⟩
+example : ∃ bs v', BundleAdd.marshalM (.obj "BundleAdd" [.num 1, .bytes (zeros 2), .num 3, SwitchConfig.new, .list []]) = .ok (bs, v') :=
+  ⟨_, _, rfl⟩
+example : ∃ v bs v', PacketOut.setData PacketOut.new [1, 2, 3] = .ok v ∧ PacketOut.marshalM v = .ok (bs, v') := ⟨_, _, _, rfl, rfl⟩
+example : ∃ bs v', VendorHeader.marshalM (VendorHeader.mk 0x2320 10 (.obj "ControllerID" [.bytes (zeros 6), .num 7])) = .ok (bs, v') :=
+  ⟨_, _, rfl⟩
+example : ∃ bs v', MatchField.marshalM (MatchField.mk 1 0 false 4 (.obj "Uint32Message" [.num 7]) .nil) = .ok (bs, v') := ⟨_, _, rfl⟩
+example : ∃ bs v', Match.marshalM (.obj "Match" [.num 1, .num 12, .list [(MatchField.mk 1 0 false 4 (.obj "Uint32Message" [.num 7]) .nil)]]) = .ok (bs, v') := ⟨_, _, rfl⟩
+
+/-- the layout theorem at work on a concrete action: port 7 at offset 4, max_len 256 at offset 8 -/
+example : ∀ bs v', ActionOutput.marshalM (ActionOutput.new 7) = .ok (bs, v') → beAt bs 4 4 = 7 ∧ beAt bs 8 2 = 256 := by
+  intro bs v' h
+  have hl := actionOutput_layout _ bs v' h
+  exact ⟨layout_inRange _ bs "Port" 4 4 7 (hl _ (by simp [layoutOf, Spec.layouts, List.lookup])) rfl (by decide),
+         layout_inRange _ bs "MaxLen" 8 2 256 (hl _ (by simp [layoutOf, Spec.layouts, List.lookup])) rfl (by decide)⟩
 
 end OFV.Props.C03b
